@@ -156,7 +156,16 @@ pub struct Summary {
     pub failures: Vec<Failure>,
     pub samples: Vec<String>,
     pub requests: Vec<(String, String)>,
+    /// requests are thinned progressively so that a deep run does not hold millions of them in
+    /// memory: only every `req_stride`-th request (in generation order) is kept; when the kept ones
+    /// exceed the bound every other one is dropped and the stride doubles (deterministic)
+    pub req_seen: u64,
+    pub req_stride: u64,
+    pub req_bytes: usize,
 }
+
+pub const REQ_KEEP_MAX: usize = 400_000;
+pub const REQ_KEEP_BYTES: usize = 3_000_000_000;
 
 impl Summary {
     pub fn absorb(&mut self, c: CaseOut) {
@@ -173,7 +182,33 @@ impl Summary {
                 self.samples.push(s);
             }
         }
-        self.requests.extend(c.requests);
+        for r in c.requests {
+            self.push_request(r);
+        }
+    }
+
+    pub fn push_request(&mut self, r: (String, String)) {
+        if self.req_stride == 0 {
+            self.req_stride = 1;
+        }
+        let i = self.req_seen;
+        self.req_seen += 1;
+        if i % self.req_stride != 0 {
+            return;
+        }
+        self.req_bytes += r.0.len() + r.1.len();
+        self.requests.push(r);
+        while self.requests.len() > REQ_KEEP_MAX || self.req_bytes > REQ_KEEP_BYTES {
+            let old = std::mem::take(&mut self.requests);
+            self.req_bytes = 0;
+            for (k, x) in old.into_iter().enumerate() {
+                if k % 2 == 0 {
+                    self.req_bytes += x.0.len() + x.1.len();
+                    self.requests.push(x);
+                }
+            }
+            self.req_stride *= 2;
+        }
     }
 }
 
